@@ -390,6 +390,49 @@ func runC04(c *fw.Ctx) {
 			}
 		})
 	}
+	for i := 0; i < c.Pick(300, 3000); i++ { // an operand that is an explicit Broadcast result whose shape argument the caller has since overwritten
+		c.Case(func(k *fw.K) {
+			m, n, kk := 1+k.Rng.Intn(3), 1+k.Rng.Intn(3), 1+k.Rng.Intn(3)
+			batch := RandShape(k.Rng, 1, 2, 3)
+			a2, b := UniqueInts(k.Rng, []int{m, n}), UniqueInts(k.Rng, append(ref.CopyInts(batch), n, kk))
+			bc := ref.Instr{Op: "broadcast", Shape: append(ref.CopyInts(batch), m, n)}
+			av, err := ref.Apply(bc, []*ref.T{a2})
+			if err != nil {
+				k.Failf("harness: %v", err)
+				return
+			}
+			want, err := ref.Apply(ref.Instr{Op: "matmul"}, []*ref.T{av, b})
+			if err != nil {
+				k.Failf("harness: %v", err)
+				return
+			}
+			k.Case = fcase{In: ref.Instr{Op: "matmul"}, Ops: []*ref.T{av, b}, Tag: "left operand = explicit Broadcast of a matrix"}
+			k.Key("matmul-broadcast-operand/%s/%d/%d/%d", shapeKey(batch), m, n, kk)
+			k.Count("matmul_cases_with_an_explicitly_broadcast_operand", 1)
+			var got, tr tensor.Tensor
+			if p := call(func() {
+				var ab tensor.Tensor
+				if ab, err = rt.Exec(bc, []tensor.Tensor{rt.MustLeaf(a2, false)}); err != nil { // rt.Exec overwrites the shape slice it passed once the call has returned
+					return
+				}
+				if got, err = ab.MatMul(rt.MustLeaf(b, false)); err != nil {
+					return
+				}
+				tr, err = ab.Transpose()
+			}); p != nil || err != nil {
+				k.Failf("Broadcast(%v).MatMul(%v): panic=%v err=%v", bc.Shape, b.Shape, p, err)
+				return
+			}
+			if e := rt.Compare(got, want, 0, 0, nil, 0); e != nil {
+				k.Failf("Broadcast(%v).MatMul(%v): %v", bc.Shape, b.Shape, e)
+				return
+			}
+			wt, _ := ref.Apply(ref.Instr{Op: "transpose"}, []*ref.T{av})
+			if e := rt.Compare(tr, wt, 0, 0, nil, 0); e != nil {
+				k.Failf("Broadcast(%v).Transpose(): %v", bc.Shape, e)
+			}
+		})
+	}
 	for i := 0; i < c.Pick(400, 4000); i++ { // a matrix times ITSELF (the same object, and an equal-valued other object), also inside a batch
 		c.Case(func(k *fw.K) {
 			n := 1 + k.Rng.Intn(5)
